@@ -9,7 +9,9 @@ import (
 	"context"
 	"errors"
 	"fmt"
+	"io"
 	"math"
+	"net/http"
 	"strings"
 	"sync"
 	"sync/atomic"
@@ -464,6 +466,13 @@ func (a *TokAPI) body(ctx context.Context, tok string, plan Plan) (Result, error
 	case "index":
 		var sl []int
 		_ = sl[len(tok)]
+	case "aborthandler":
+		// sentinel values other layers give a meaning to: a panic is a panic whatever its payload
+		panic(http.ErrAbortHandler)
+	case "eof":
+		panic(io.EOF)
+	case "ctxcanceled":
+		panic(context.Canceled)
 	default:
 		panic(plan.Panic)
 	}
